@@ -661,6 +661,7 @@ def gen_imp_req(rng):
     return req, bool(imps)
 
 
+SEQ_CFG = dict(max_stmts=10, symbolic_prob=0.0, n_callees=(1, 2), weights={'call': 40, 'do': 10, 'if': 6})
 GEN_CFG = dict(max_stmts=14, weights={'assoc': 10, 'assign_section': 14, 'if': 14, 'select': 6, 'call': 10})
 
 
@@ -702,8 +703,8 @@ class C40(Prop):
 
     # ---- generation
     def gen(self, rng, tier):
-        per = {'quick': 3, 'thorough': 50, 'search': 15}.get(tier, 3)
-        nabs = {'quick': 20, 'thorough': 250, 'search': 80}.get(tier, 20)
+        per = {'quick': 5, 'thorough': 45, 'search': 12}.get(tier, 5)
+        nabs = {'quick': 30, 'thorough': 300, 'search': 80}.get(tier, 30)
         for j in range(per):
             base = fir.gen_program(rng, GEN_CFG)
             for norm in NORMALISERS:
@@ -717,7 +718,10 @@ class C40(Prop):
                 if norm == 'dead':
                     yield Case([A('fir'), A(norm), dead_decorate(prog, rng)], stream='fir-dead')
                     continue
-                if norm in ('assoc', 'vector', 'seqassoc'):
+                if norm == 'seqassoc':
+                    yield Case([A('fir'), A(norm), fir.gen_program(rng, SEQ_CFG)], stream='fir-seqassoc')
+                    continue
+                if norm in ('assoc', 'vector'):
                     yield Case([A('fir'), A(norm), prog], stream='fir-' + norm)
                     continue
                 src = fir.emit_fortran(prog, wrap_program=False)
